@@ -31,6 +31,10 @@ type closeObs struct {
 // runCloseCase: closer writes `writes` then closes; peer reads to the end.
 // readerHold parks the reader for that long after each successful read
 // (slow reader). Returns the observation.
+// c03ReverseTraffic: the peer of the closer writes a little every 5 ms for the
+// whole case (set by the case before runCloseCase; cases run one at a time).
+var c03ReverseTraffic bool
+
 func runCloseCase(env *Env, closerIsServer bool, writes []int, key uint64, closeDelay time.Duration,
 	readSizes []int, readerGap time.Duration, readerStart time.Duration, budget time.Duration) (*closeObs, error) {
 	cm, err := env.NewClient(0, "")
@@ -55,6 +59,27 @@ func runCloseCase(env *Env, closerIsServer bool, writes []int, key uint64, close
 	done := make(chan struct{})
 	var wg sync.WaitGroup
 	startPeer := func() {
+		if c03ReverseTraffic {
+			// the peer also talks: the closing side keeps acknowledging while it closes
+			pw, cr := peer, closer
+			go func() {
+				b := make([]byte, 1000)
+				for {
+					if _, err := pw.Write(b); err != nil {
+						return
+					}
+					time.Sleep(5 * time.Millisecond)
+				}
+			}()
+			go func() {
+				b := make([]byte, 65536)
+				for {
+					if _, err := cr.Read(b); err != nil {
+						return
+					}
+				}
+			}()
+		}
 		wg.Add(1)
 		go func() {
 			defer wg.Done()
@@ -285,6 +310,12 @@ func c03Case(c *Ctx) *Result {
 			total = int64(writes[0])
 			closeDelay = 0
 			faultClass = "backlog-long-delay-path"
+			if r.Intn(2) == 0 {
+				c03ReverseTraffic = true
+				defer func() { c03ReverseTraffic = false }()
+				faultClass += "/peer-talks"
+				params["peer_talks"] = true
+			}
 			params["writes"] = writes
 			params["close_delay_ms"] = 0
 			params["latency_ms"] = env.Net.Latency.Milliseconds()
